@@ -8,6 +8,24 @@ VERIF = os.path.dirname(os.path.dirname(os.path.abspath(__file__)))
 
 # property -> (technique, clause decided, trusted base / what is not decided, DESIGN ref)
 CLAIMS = {
+    "C01": ("sibling-agreement rule: multisets of configuration events (context creation, options, suppressions, "
+            "loader calls, post-load adjustments) per operand, attributed by operand name or enclosing region (AST)",
+            "in abidiff, abipkgdiff, abicompat and kmidiff the two operands of a comparison are read under the same "
+            "configuration (same-configuration clause of self-comparison)",
+            "that identical loads give identical IR and that identical IR compares clean (reflexivity of equals / "
+            "canonicalisation on cyclic graphs) is runtime",
+            "§3 R-TWINLOAD; §4 C01"),
+    "C19": ("sibling-agreement (contradiction) rule over ordered symbol-lookup event sequences of the four regions of "
+            "ensure_lookup_tables_populated",
+            "function symbols and variable symbols get the same re-lookup treatment (still-present => not removed; "
+            "default-version re-export rule) in the declared and in the unreferenced-symbol regions",
+            "the set difference over the runtime symbol sets",
+            "§3 R-SIBSYM; §4 C19"),
+    "C28": ("who-gates rule: every is_linux_kernel() value that selects ksymtab filtering is conjoined with, or "
+            "data-dependent (through parameters, all call sites) on, load_in_linux_kernel_mode",
+            "no ksymtab-based restriction of the interface is applied when the kernel mode option is off",
+            "which symbols carry a ksymtab marker (runtime data)",
+            "§3 R-KMODE; §4 C28"),
     "C05": ("constant evaluation of the category masks + categoriser tables (AST) and exit-status abstract "
             "interpretation of abidiff with the verdict predicates as symbolic atoms",
             "a category the harmful categoriser assigns is never in the default-off mask; on every path of abidiff's "
